@@ -43,6 +43,15 @@ def cases(draw):
     rows = draw(gen_tables.tables(spec, max_rows=8, ragged=True))
     if fmt["format"] == "fixed":
         rows = [[cell.rstrip(" ") for cell in row] for row in rows]
+        # values that are too long for their field only because of LEADING blanks (representable, unlike trailing
+        # ones, and rejected by the length guard whatever their stripped text is)
+        header_rows = fmt.get("header", 0)
+        for index in range(header_rows, len(rows)):
+            if rows[index] and len(rows[index]) == len(spec["fields"]) and draw(st.integers(0, 5)) == 0:
+                column = draw(st.integers(0, len(rows[index]) - 1))
+                width = spec["fields"][column]["length_items"][0][0]
+                value = rows[index][column].strip(" ") or "x"
+                rows[index][column] = " " * (width - len(value) + draw(st.integers(1, 2))) + value
         # the writer pads: also offer rows with a wrong item count
         if rows and draw(st.booleans()):
             victim = draw(st.integers(fmt.get("header", 0), len(rows))) if len(rows) > fmt.get("header", 0) else None
@@ -198,9 +207,13 @@ def check_case(sub, case):
         elif items != data_rows:
             sub.fail("C14|read-back|rows-differ|%s" % label, case,
                      "written %r, read back %r (output %r)" % (data_rows, items, output))
-        elif end != "neutral" and (ended is None) != (end == "ok"):
-            sub.fail("C14|read-back|end-verdict|%s" % label, case,
-                     "writer's end verdict %r, reading back ended with %r" % (end, ended))
+        else:
+            # the verdict of the written data on its own: a row vetoed by a later check may already have been
+            # counted by an earlier DistinctCount in the writer run, so the two verdicts may legitimately differ
+            reread = model_validio.predict(spec, wanted_rows)
+            if not reread["tainted"] and (ended is None) != (reread["end"] == "ok"):
+                sub.fail("C14|read-back|end-verdict|%s" % label, case,
+                         "the written rows alone end with %r, reading them back ended with %r" % (reread["end"], ended))
     nontrivial = False
     seen_reject = False
     for v in verdicts:
